@@ -540,5 +540,11 @@ func runCorpus(r *runner, path string) {
 		}
 		r.stats["corpus-cases"]++
 		r.runCase(s, insts, true)
+		if !s.IsBool {
+			prng := common.NewRng(uint64(r.stats["corpus-cases"]))
+			for k := 0; k < 4; k++ {
+				r.runPermuted(s, s.JSONTextShuffled(permOf(prng)), insts)
+			}
+		}
 	}
 }
